@@ -24,10 +24,16 @@ def fmt_bound(b):
 
 # ------------------------------------------------------------------ expression trees
 # ("T", entries) ("L", entries) ("M", [kids]) ("C", [kids]) ("B", lo, hi, kid) ("P", ts, kid)
+def fmt_sched(sc):
+    return ",".join(str(n) for n in sc) if sc else "-"
+
+
 def fmt_expr(x):
     t = x[0]
     if t in "TL":
         return " ".join([t, str(len(x[1]))] + [fmt_entry(e) for e in x[1]])
+    if t in "FO":      # failing leaves: ("F", entries, sched) table; ("O", entries, sched) lazy with failing opens
+        return " ".join([t, str(len(x[1])), fmt_sched(x[2])] + [fmt_entry(e) for e in x[1]])
     if t in "MC":
         return " ".join([t, str(len(x[1]))] + [fmt_expr(k) for k in x[1]])
     if t == "B":
@@ -67,7 +73,7 @@ def prune_spec(t, l):
 
 def spec(x):
     t = x[0]
-    if t in "TL":
+    if t in "TLFO":
         return list(x[1])
     if t == "M":
         return sorted((e for k in x[1] for e in spec(k)), key=kref)
@@ -105,6 +111,155 @@ def ref_run(l, prog):
     return " ".join(out)
 
 
+def add_failures(rng, x, stats):
+    """turn leaves into failing leaves: T -> F with 0-3 failing call numbers, L -> O with failing opens"""
+    t = x[0]
+    if t == "T":
+        if rng.chance(2, 3):
+            n = rng.choice([1, 1, 1, 2, 2, 3])
+            sc = sorted(set(rng.range(1, rng.choice([4, 8, 16, 30])) for _ in range(n)))
+            stats["fail_points"] = stats.get("fail_points", 0) + len(sc)
+            return ("F", x[1], sc)
+        return x
+    if t == "L":
+        if rng.chance(1, 2):
+            sc = sorted(set(rng.range(1, 4) for _ in range(rng.choice([1, 1, 2]))))
+            stats["fail_points"] = stats.get("fail_points", 0) + len(sc)
+            return ("O", x[1], sc)
+        return x
+    if t in "MC":
+        return (t, [add_failures(rng, k, stats) for k in x[1]])
+    if t == "B":
+        return ("B", x[1], x[2], add_failures(rng, x[3], stats))
+    if t == "P":
+        return ("P", x[1], add_failures(rng, x[2], stats))
+    return x
+
+
+def single_failure_variants(x, maxcall):
+    """every way to make exactly one leaf fail at exactly one call number 1..maxcall (opens 1..3)"""
+    leaves = []
+
+    def walk(y, path):
+        t = y[0]
+        if t in "TL":
+            leaves.append(path)
+        elif t in "MC":
+            for i, k in enumerate(y[1]):
+                walk(k, path + [i])
+        elif t == "B":
+            walk(y[3], path + [0])
+        elif t == "P":
+            walk(y[2], path + [0])
+    walk(x, [])
+
+    def rebuild(y, path, n):
+        t = y[0]
+        if not path:
+            return ("F", y[1], [n]) if t == "T" else ("O", y[1], [n])
+        if t in "MC":
+            return (t, [rebuild(k, path[1:], n) if i == path[0] else k for i, k in enumerate(y[1])])
+        if t == "B":
+            return ("B", y[1], y[2], rebuild(y[3], path[1:], n))
+        return ("P", y[1], rebuild(y[2], path[1:], n))
+
+    out = []
+    for path in leaves:
+        y = x
+        for i in path:
+            y = y[1][i] if y[0] in "MC" else (y[3] if y[0] == "B" else y[2])
+        top = maxcall if y[0] == "T" else 3
+        for n in range(1, top + 1):
+            out.append(rebuild(x, path, n))
+    return out
+
+
+def parse_entry(tok):
+    k, rest = tok.split("@")
+    if rest.endswith("~"):
+        return (bytes.fromhex(k), int(rest[:-1]), None)
+    ts, v = rest.split("=")
+    return (bytes.fromhex(k), int(ts), bytes.fromhex(v))
+
+
+def parse_bound(tok):
+    return None if tok == "U" else (tok[0], bytes.fromhex(tok[2:]))
+
+
+def parse_expr(toks):
+    """inverse of fmt_expr on a token list (consumed from the front)"""
+    t = toks.pop(0)
+    if t in "TL":
+        n = int(toks.pop(0))
+        return (t, [parse_entry(toks.pop(0)) for _ in range(n)])
+    if t in "FO":
+        n = int(toks.pop(0))
+        sc = toks.pop(0)
+        sched = [] if sc == "-" else [int(v) for v in sc.split(",")]
+        return (t, [parse_entry(toks.pop(0)) for _ in range(n)], sched)
+    if t in "MC":
+        n = int(toks.pop(0))
+        return (t, [parse_expr(toks) for _ in range(n)])
+    if t == "B":
+        lo = parse_bound(toks.pop(0))
+        hi = parse_bound(toks.pop(0))
+        return ("B", lo, hi, parse_expr(toks))
+    if t == "P":
+        ts = int(toks.pop(0))
+        return ("P", ts, parse_expr(toks))
+    raise ValueError(t)
+
+
+def parse_prog(toks):
+    return [t if t in "FENV" else ("S", bytes.fromhex(t[2:])) for t in toks]
+
+
+def ref_run_errors(l, prog, toks):
+    """The specification of a run with storage errors, given where the run returned Err.
+    `toks`: the observations (initial one first).  Returns (verdict, known): verdict None if every
+    position the specification determines agrees (everything before the first Err; after an Err
+    every seek / seek_to_first / seek_to_last that succeeds and everything after it up to the
+    next Err), else a description; known = number of runs of dirty next/prev calls (after an Err,
+    before the next successful absolute call) whose result differs from "the failed call was a
+    no-op" - the known class: those are unspecified."""
+    n = len(l)
+
+    def kv(i):
+        return fmt_entry(l[i]) if 0 <= i < n else "-"
+
+    if not toks:
+        return "no output", 0
+    if toks[0] == "ERR":
+        return (None if len(toks) == 1 else "output after a failed constructor"), 0
+    if toks[0] != kv(-1):
+        return "initial observation: got %s want %s" % (toks[0], kv(-1)), 0
+    if len(toks) != len(prog) + 1:
+        return "number of observations", 0
+    i, dirty, diverged, known = -1, False, False, 0
+    for pos, (o, tok) in enumerate(zip(prog, toks[1:])):
+        if tok in ("PANIC", "FUEL"):
+            return "own failure %s at call %d" % (tok, pos + 1), known
+        if tok == "ERR":
+            dirty = True
+            continue
+        if o == "N":
+            i = min(i + 1, n)
+        elif o == "V":
+            i = max(i - 1, -1)
+        else:
+            i = -1 if o == "F" else (n if o == "E" else sum(1 for e in l if e[0] < o[1]))
+            dirty, diverged = False, False
+        if diverged:
+            continue
+        if tok != kv(i):
+            if dirty:
+                known += 1
+                diverged = True
+            else:
+                return "call %d: got %s want %s" % (pos + 1, tok, kv(i)), known
+    return None, known
+
+
 def has_kind(x, kinds):
     t = x[0]
     if t in kinds:
@@ -120,7 +275,7 @@ def has_kind(x, kinds):
 
 def kinds_of(x, acc=None):
     acc = acc if acc is not None else set()
-    acc.add(x[0])
+    acc.add({"F": "T", "O": "L"}.get(x[0], x[0]))
     if x[0] in "MC":
         for k in x[1]:
             kinds_of(k, acc)
